@@ -158,6 +158,7 @@ def c08(run, vc):
     _sample(run, [v for v in vecs if v["act"] == "Combine"])
     s = vc.replay(vecs, "c08", tables, profiles="5")
     run.add_replay(s, "split / combine (key, public key, signature) / partial sign / partial verify on real shares", vecs, _nontrivial_threshold)
+    _trace_proto(run, vc, tables, 1500 if tier == "quick" else 12000)
     return run.finish(rule="vectors = every transition of the Threshold model: all (t,n) with 2<=t<=n<=MaxN plus out-of-range parameters; for each deal every sequence without repetition of every length handed to each of the three combiners, plus one adversarial insertion (duplicate, zero id, rewritten id, corrupt payload, other scheme) at every position of every base sequence of length <= BaseLen; all (i,j) partial verifications; non-trivial = anything but exactly t untouched shares",
                       assumptions=["symbolic model: polynomial coefficients are atoms; Lagrange over exact rationals", "reference interpolation on bls12_381_plus"])
 
@@ -187,6 +188,7 @@ def c11(run, vc):
     _sample(run, [v for v in vecs if v["act"] == "Decrypt"])
     s = vc.replay(vecs, "c11", tables, profiles="5")
     run.add_replay(s, "seal / is_valid / decrypt (by key and by decryption key) for every length class, scheme, key and adversary move; V-region moves expanded to every bit", vecs, _nontrivial_sc)
+    _trace_proto(run, vc, tables, 1500 if tier == "quick" else 12000)
     return run.finish(rule="vectors = every Seal, IsValid and Decrypt transition of the SignCrypt model: length classes x schemes x keys x <=Depth adversary moves on (U, V regions, W, scheme label, joint identity, re-sealed header) x decrypting key x route; derived executions = every bit of the touched V region / every truncation length, and the independent implementation's exact result; non-trivial = touched ciphertext or wrong key",
                       assumptions=["symbolic model; XOF mask opaque per point", "independent open on bls12_381_plus + SHAKE128 + hand-written LEB128 framing"])
 
@@ -205,6 +207,7 @@ def c12(run, vc):
     _sample(run, vecs)
     s = vc.replay(vecs, "c12", tables, profiles="5")
     run.add_replay(s, "decryption-share verification for all (share, key share, ciphertext) combinations and all three schemes; t-of-n decryption by both routes for every share sequence", vecs, _nontrivial_sc)
+    _trace_proto(run, vc, tables, 1500 if tier == "quick" else 12000)
     return run.finish(rule="vectors = every ShareVerify (i, j, same/other ciphertext) and DecryptShares (every sequence without repetition over 1..n plus duplicate / zero-id / corrupt insertions, both routes) transition for all (t,n) <= MaxN, all schemes, length classes and keys; non-trivial = mismatched share/key/ciphertext or not exactly t untouched shares",
                       assumptions=["symbolic model with degree-2 coefficients f(i)*r", "reference interpolation + open on bls12_381_plus"])
 
@@ -230,6 +233,7 @@ def c13(run, vc):
     s = vc.replay(vecs, "c13", tables, profiles="5")
     run.add_replay(s, "time-lock seal / decrypt for every identifier, scheme, key, length class, adversary move and offered signature (whole-key, recombined, wrong id/key/scheme/label, identity, negated)", vecs,
                    lambda v: v["act"] == "TLDecrypt" and (v.get("touched") or not v.get("rightsig")))
+    _trace_proto(run, vc, tables, 1500 if tier == "quick" else 12000)
     return run.finish(rule="vectors = every TLSeal and TLDecrypt transition of the TimeLock model: keys x schemes x identifiers x length classes x <=Depth adversary moves on (U, V, W regions, scheme label) x offered signatures; derived executions = every bit of V / of the touched W region, every truncation length, and the independent implementation's exact result; non-trivial = touched ciphertext or not the right signature",
                       assumptions=["symbolic model; r = Hr(alpha, SHA256(M)) is an atom determined by (alpha, M)", "independent open on bls12_381_plus + SHA-256 + SHAKE128 + hand-written HKDF"])
 
@@ -248,6 +252,7 @@ def c14(run, vc):
     s = vc.replay(vecs, "c14", tables, profiles="5")
     run.add_replay(s, "ElGamal encrypt / homomorphic sums / decrypt / proofs under every single-component perturbation / verify-and-decrypt / t-of-n decryption", vecs,
                    lambda v: bool(v.get("touched")) or v.get("rightkey") is False or v.get("rightpk") is False or (v["act"] == "EGShares" and not v.get("ideal")))
+    _trace_proto(run, vc, tables, 1500 if tier == "quick" else 12000)
     return run.finish(rule="vectors = every transition of the ElGamal model: recipient keys x plaintexts {1, r-1, ..} x sums of <=MaxSum ciphertexts x decrypting key; proofs x every perturbation {add, negate, swap with another proof's, zero/identity} of each of (c1, c2, message_proof, blinder_proof, challenge) x verifier key recipes; threshold decryption for all (t,n) and share sequences; derived = all six addition forms, reference verdict, reference-made proofs accepted by the library",
                       assumptions=["symbolic model; Fiat-Shamir challenge is a random oracle", "independent transcript on merlin with labels/order from spec/Tags.tla"])
 
@@ -660,6 +665,12 @@ def _trace_signet(run, vc, tables, name, events, mix="all"):
     if not hasattr(vc, "record_and_validate"):
         return
     vc.record_and_validate(run, "signet", "Trace_SigNet", name, events, tables, mix=mix)
+
+
+def _trace_proto(run, vc, tables, events):
+    """random walks over threshold sharing, time-lock, signcryption (incl. threshold decryption) and ElGamal in one
+    value space, validated by TLC against Trace_Proto (Bind rule)"""
+    vc.record_and_validate(run, "proto", "Trace_Proto", run.prop.lower(), events, tables)
 
 
 CHECKS = {"C01": c01, "C02": c02, "C03": c03, "C04": c04, "C05": c05, "C06": c06, "C07": c07, "C08": c08, "C09": c09, "C10": c10, "C11": c11, "C12": c12, "C13": c13, "C14": c14, "C15": c15, "C16": c16, "C17": c17, "C18": c18, "C19": c19, "C20": c20}
